@@ -4,7 +4,8 @@
    the operations with what each returned, then the dump of the three record
    families at the end.  [check] replays the history on the model. *)
 From Coq Require Import List ZArith NArith Bool.
-Require Import Mixin.Base.Res Mixin.Model.Cache.
+Require Import Mixin.Base.Res.
+Require Export Mixin.Model.Cache.
 Import ListNotations.
 Open Scope N_scope.
 
